@@ -724,6 +724,10 @@ func unescapeBackTickSpecialStr(l *syntax.Lexer, srcLiteral []rune) []rune {
 			} else {
 				goto UNDONE_end
 			}
+		case syntax.RuneCR, syntax.RuneLF:
+			// a line break ends the backtick text (it is kept literally): stop BEFORE it, so that
+			// the string loop sees the break itself and counts the line
+			goto UNDONE_end
 		}
 
 		cch := l.Next()
